@@ -169,6 +169,23 @@ def o_bitpack(src, fields, vals_list, datas):
     return None
 
 
+@C.oracle('bit_tail')
+def o_bit_tail(src, width, signed, data):
+    c = C.get(src)
+    bits = ''.join('{:08b}'.format(x) for x in data)
+    a = int(bits[:width], 2)
+    if signed and a >= 1 << (width - 1):
+        a -= 1 << width
+    rest = bytes(int(ch) for ch in bits[width:])
+    p = res(lambda: c.parse(data))
+    if p[0] != 'ok' or p[1].a != a or bytes(p[1].rest) != rest:
+        return 'parse(%r): %r; the first %d bits are %d and the remaining bits are %r' % (data, p, width, a, rest)
+    b = res(lambda: c.build(dict(a=a, rest=rest)))
+    if b != ('ok', data):
+        return 'build gave %r, expected %r' % (b, data)
+    return None
+
+
 def run(tier, seed):
     acc = C.Acc('C10', tier, seed)
     rng = C.rng_for(seed, 'C10')
@@ -189,6 +206,22 @@ def run(tier, seed):
         for d in datas:
             cases.append(dict(src=src, op='parse', data=d))
             cases.append(dict(src=ssrc, op='parse', data=d))
+    # a read-to-end member after fields that do not end on a byte boundary (streaming region): it must see every remaining bit
+    for _ in range(60 if tier == 'quick' else 600):
+        k = rng.choice([1, 2, 3, 4, 5, 6, 7, 9, 11, 13])
+        s_ = rng.random() < 0.4
+        src = 'Bitwise(Struct("a"/BitsInteger(%d, signed=%s), "rest"/GreedyBytes))' % (k, s_)
+        for nbytes in (1, 2, 3):
+            if 8 * nbytes < k:
+                continue
+            d = G.rand_bytes(rng, nbytes)
+            acc.check('bit_tail', src, width=k, signed=s_, data=d)
+            cases.append(dict(src=src, op='parse', data=d))
+            bits = ''.join('{:08b}'.format(x) for x in d)
+            a = int(bits[:k], 2)
+            if s_ and a >= 1 << (k - 1):
+                a -= 1 << k
+            cases.append(dict(src=src, op='build', obj=dict(a=a, rest=bytes(int(c) for c in bits[k:]))))
     # exhaustive: every value of every region of <= 16 bits made of two or three integer fields
     widths = [(a, b) for a in range(1, 16) for b in range(1, 16) if (a + b) in (8, 16)]
     if tier == 'quick':
